@@ -54,6 +54,12 @@ def check(chk):
     raises_ = [n for n in cfg.nodes if n.kind == "stmt" and isinstance(n.ast, ast.Raise)]
     handlers_ = {id(y) for h in ast.walk(f.node) if isinstance(h, ast.ExceptHandler) for st in h.body for y in ast.walk(st)}
     early = [n for n in raises_ if id(n.ast) not in handlers_]
+    # ... nor quietly: a return that is reached without passing the write is a refused save as well (a "busy" shortcut drops the snapshot
+    # the data manager has already marked as written)
+    save_ids_ = [n.id for n, _ in saves]
+    for r_ in [n for n in cfg.nodes if n.kind == "stmt" and isinstance(n.ast, ast.Return) and id(n.ast) not in handlers_]:
+        if cfg.path_avoiding(cfg.entry.id, [r_.id], save_ids_, ignore_exc=True):
+            early.append(r_)
     chk.ob("PAIR-17", "FileManager.save refuses a save only for an unknown file type (never because of files an earlier attempt left)", not early,
            f.where(early[0].ast) if early else f.where(), detail="guards %s" % sorted(cfg.guards_at(early[0].id).items()) if early else "", construct=f.ident,
            text="save refused before it was attempted")
@@ -102,6 +108,15 @@ def check(chk):
                        not swallow, fn_.where(h), detail="handler for %s returns normally: FileManager.save then renames the empty/truncated temp file "
                        "over the good data file" % (src(h.type) if h.type else "everything"), construct=fn_.ident,
                        text="write failure swallowed in " + fn_.qualname)
+    # the writer configures layout only: what the safe dumper can represent (shared and self-referencing containers through anchors included)
+    # stays representable.  Options set on the dumper or its representer are from the layout table.
+    LAYOUT = {"default_flow_style", "line_break", "indent", "width", "explicit_start", "explicit_end", "allow_unicode", "encoding", "sort_base_mapping_type_on_output"}
+    opts = [(x, src(x.targets[0])) for x in walk_local(ys.node) if isinstance(x, ast.Assign) and isinstance(x.targets[0], ast.Attribute)
+            and src(x.targets[0]).split(".")[0] == "dumper"]
+    for x, t in opts:
+        chk.ob("PAIR-17", "the YAML writer sets layout options only (%s)" % t, t.count(".") == 1 and t.split(".")[1] in LAYOUT, ys.where(x),
+               detail="%s changes what can be represented (e.g. ignore_aliases: self-referencing data can no longer be written, every save of it fails)" % t,
+               construct=ys.ident, text="dumper option " + t)
     dumps = [c_ for c_ in ys.calls() if call_attr(c_) == "dump"]
     chk.ob("PAIR-17", "the YAML writer dumps the document", bool(dumps), ys.where(), construct=ys.ident, text="dump present")
 
@@ -493,7 +508,9 @@ def battery():
         M("replace in finally", FM, "            # move temp file\n            os.replace(temp_file, filename)\n        finally:\n            FileManager.is_busy = False", "        finally:\n            os.replace(temp_file, filename)\n            FileManager.is_busy = False", "PAIR-17"),
         M("write in place", FM, "FileManager.file_interfaces[ext].save(temp_file, data)", "FileManager.file_interfaces[ext].save(filename, data)", "PAIR-17"),
         M("replace arguments swapped", FM, "os.replace(temp_file, filename)", "os.replace(filename, temp_file)", "PAIR-17"),
+        M("save skipped while another write is in progress", FM, "        FileManager.is_busy = True\n        try:\n            ext = os.path.splitext(filename)[1]", "        if FileManager.is_busy:\n            return\n        FileManager.is_busy = True\n        try:\n            ext = os.path.splitext(filename)[1]", "PAIR-17"),
         M("first save written in place", FM, "            temp_file = os.path.dirname(filename) + os.sep + \"_\" + os.path.basename(filename)\n", "            if os.path.isfile(filename):\n                temp_file = os.path.dirname(filename) + os.sep + \"_\" + os.path.basename(filename)\n            else:\n                temp_file = filename\n", "PAIR-17"),
+        M("writer stops using anchors for shared data", YI, "        dumper.line_break = ''\n", "        dumper.line_break = ''\n        dumper.representer.ignore_aliases = lambda data: True\n", "PAIR-17"),
         M("serialisation error swallowed in the writer", YI, "            dumper.dump(data, output_file)", "            try:\n                dumper.dump(data, output_file)\n            except Exception as e:\n                self.log.warning(\"YAML error %s\", e)", "PAIR-17"),
         M("temp file in /tmp", FM, "temp_file = os.path.dirname(filename) + os.sep + \"_\" + os.path.basename(filename)", "temp_file = \"/tmp/_\" + os.path.basename(filename)", "PAIR-17"),
         M("dirty cleared after successful write", DM, "            self._dirty.clear()\n\n            data = copy.deepcopy(self.data)\n            # save data\n            try:\n                FileManager.save(self.filename, data)", "            data = copy.deepcopy(self.data)\n            # save data\n            try:\n                FileManager.save(self.filename, data)\n                self._dirty.clear()", "FLOW-6"),
